@@ -835,7 +835,9 @@ def g11(rep, tms):
     if not _os.path.exists(path):
         rep.fail_closed("G11: spec/layouts.json missing")
         return r
-    ref = _json.load(open(path))["structs"]
+    ref_all = _json.load(open(path))
+    ref = ref_all["structs"]
+    ref_ty = ref_all.get("types") or {}
     lay = layouts(tms)
     by = {}
     for tm in tms:
@@ -848,6 +850,18 @@ def g11(rep, tms):
             rep.notes.append("G11: struct %s is %s" % (name, "new (not in the reference)" if name in lay else "gone"))
             continue
         cur = [[t, k] for t, k, ty in lay[name]]
+        cur_ty = [ty for t, k, ty in lay[name]]
+        if cur == ref[name] and name in ref_ty and cur_ty != ref_ty[name] and len(cur_ty) == len(ref_ty[name]):
+            # same tags and kinds, another field type at a step: for an option position that is another set of
+            # option letters (a letter of the documented set falls into the content heuristic or is rejected)
+            d = next(x for x in range(len(cur_ty)) if cur_ty[x] != ref_ty[name][x])
+            tm = by.get(name)
+            rep.add(Finding("G11", tm.pfn if tm else name, "%s:type" % name,
+                            "%s reads tag %s with field type %s, the reference layout with %s: the set of accepted "
+                            "option letters / the format of that position changed"
+                            % (name, cur[d][0], cur_ty[d], ref_ty[name][d]),
+                            tm.file if tm else None, (tm.pb or {}).get("line") if tm else None))
+            continue
         if cur != ref[name]:
             tm = by.get(name)
             if tm is not None and any(getattr(inst, "in_closure", False) for inst in tm.model_structs()
